@@ -2203,6 +2203,14 @@ class TestGraph(object):
                 if next.is_cleanup_ready(worker):
                     self.report_progress()
 
+                    # nodes still to be unrolled by this worker could also become children
+                    unexplored_nodes = [
+                        node
+                        for node in self.nodes
+                        if node.is_flat()
+                        and not node.is_unrolled(worker)
+                        and node.should_parse(worker)
+                    ]
                     if not next.is_flat() and len(unexplored_nodes) > 0:
                         # postpone cleaning up current node since it might have newly added children
                         logging.info(
